@@ -202,4 +202,602 @@ theorem index_resolves {s : State} (h : Inv s) {k : Nat} {r : Rec} (hr : s.brd[k
   · have : k = k' := h.distinct k k' r r' hr hr' hocc (by rw [hkey, hn])
     subst this; rw [hb, hbk]
 
+
+/-! ### SortBCache -/
+
+theorem getElem?_clearFC (n : Nat) (cache : List Rec) (k : Nat) :
+    (clearFC n cache)[k]? = (cache[k]?).map (fun r => if k < n then { r with fc := zeros 8 } else r) := by
+  simp [clearFC, List.getElem?_mapIdx]
+
+theorem nameKeyAt_clearFC (n : Nat) (cache : List Rec) : nameKeyAt (clearFC n cache) = nameKeyAt cache := by
+  funext k
+  simp only [nameKeyAt, List.getD, getElem?_clearFC]
+  cases cache[k]? with
+  | none => rfl
+  | some r => by_cases h : k < n <;> simp [h]
+
+theorem classKeyAt_clearFC (n : Nat) (cache : List Rec) : classKeyAt (clearFC n cache) = classKeyAt cache := by
+  funext k
+  simp only [classKeyAt, List.getD, getElem?_clearFC]
+  cases cache[k]? with
+  | none => rfl
+  | some r => by_cases h : k < n <;> simp [h]
+
+theorem sortBCache_sortN {srt : Sorter} (hs : SortSpec srt) (s : State) :
+    ((sortBCache srt s).sortedN.take (sortBCache srt s).bnumber).Perm (List.range (sortBCache srt s).bnumber) ∧
+    ((sortBCache srt s).sortedN.take (sortBCache srt s).bnumber).Pairwise
+      fun a b => ¬ nameKeyAt (sortBCache srt s).cache b < nameKeyAt (sortBCache srt s).cache a := by
+  obtain ⟨hp, hw⟩ := hs (nameKeyAt s.cache) s.bnumber
+  have hlen : (srt (nameKeyAt s.cache) s.bnumber).length = s.bnumber := by rw [hp.length_eq, List.length_range]
+  simp only [sortBCache, nameKeyAt_clearFC, List.take_left' hlen]
+  exact ⟨hp, hw⟩
+
+theorem sortBCache_sortC {srt : Sorter} (hs : SortSpec srt) (s : State) :
+    ((sortBCache srt s).sortedC.take (sortBCache srt s).bnumber).Perm (List.range (sortBCache srt s).bnumber) ∧
+    ((sortBCache srt s).sortedC.take (sortBCache srt s).bnumber).Pairwise
+      fun a b => ¬ classKeyAt (sortBCache srt s).cache b < classKeyAt (sortBCache srt s).cache a := by
+  obtain ⟨hp, hw⟩ := hs (classKeyAt s.cache) s.bnumber
+  have hlen : (srt (classKeyAt s.cache) s.bnumber).length = s.bnumber := by rw [hp.length_eq, List.length_range]
+  simp only [sortBCache, classKeyAt_clearFC, List.take_left' hlen]
+  exact ⟨hp, hw⟩
+
+/-! ### placing a header into slot `k` (a vacated slot, or the slot after the last one) -/
+
+/-- `.BRD`, the shared copy, the BM cache and BNumber after `r` was written to slot `k ≤ BNumber` and
+`ResetBoard(k+1)` ran (before SortBCache). -/
+def placeRaw (s : State) (k : Nat) (r : Rec) : State :=
+  { s with brd := if k < s.brd.length then s.brd.set k r else s.brd ++ [r], tail := [],
+           cache := s.cache.set k r, bmcache := s.bmcache.set k (parseBMList s.users r.bm),
+           bnumber := if k < s.bnumber then s.bnumber else s.bnumber + 1 }
+
+theorem placeRaw_brd_self (s : State) (k : Nat) (r : Rec) (hk : k ≤ s.brd.length) :
+    (placeRaw s k r).brd[k]? = some r := by
+  simp only [placeRaw]
+  by_cases h : k < s.brd.length
+  · rw [if_pos h, List.getElem?_set_self h]
+  · have : k = s.brd.length := by omega
+    rw [if_neg h, this, List.getElem?_append_right (Nat.le_refl _)]; simp
+
+theorem placeRaw_brd_ne (s : State) (k j : Nat) (r : Rec) (hk : k ≤ s.brd.length) (hj : j ≠ k) :
+    (placeRaw s k r).brd[j]? = s.brd[j]? := by
+  simp only [placeRaw]
+  by_cases h : k < s.brd.length
+  · rw [if_pos h, List.getElem?_set_ne (Ne.symm hj)]
+  · have hkl : k = s.brd.length := by omega
+    rw [if_neg h]
+    by_cases hjl : j < s.brd.length
+    · rw [List.getElem?_append_left hjl]
+    · have h1 : ([r] : List Rec)[j - s.brd.length]? = none := by
+        apply List.getElem?_eq_none
+        simp only [List.length_singleton]; omega
+      rw [List.getElem?_append_right (by omega), h1, List.getElem?_eq_none (by omega)]
+
+theorem occupied_of_key_eq {a b : Rec} (h : nameKey a.name = nameKey b.name) (ha : occupied a = true) :
+    occupied b = true := by
+  simp only [occupied, bne_iff_ne, ne_eq] at ha ⊢
+  rw [← h]; exact ha
+
+theorem inv_place {srt : Sorter} (hs : SortSpec srt) {s : State} (h : Inv s) {k : Nat} {r : Rec}
+    (hk : k ≤ s.bnumber) (hkm : k < MAXB)
+    (hfresh : ∀ (j : Nat) (rj : Rec), s.brd[j]? = some rj → j ≠ k → occupied rj = true →
+      nameKey rj.name ≠ nameKey r.name) :
+    Inv (sortBCache srt (placeRaw s k r)) := by
+  have hkl : k ≤ s.brd.length := by rw [h.len]; exact hk
+  have hbn : (placeRaw s k r).bnumber = if k < s.bnumber then s.bnumber else s.bnumber + 1 := rfl
+  have hkbn : k < (placeRaw s k r).bnumber := by rw [hbn]; split <;> omega
+  refine ⟨rfl, ?_, ?_, ?_, ?_, ?_, ?_, sortBCache_sortN hs _, sortBCache_sortC hs _, ?_⟩
+  · -- len
+    show (placeRaw s k r).brd.length = (placeRaw s k r).bnumber
+    simp only [placeRaw]
+    by_cases hlt : k < s.bnumber
+    · have : k < s.brd.length := by rw [h.len]; exact hlt
+      rw [if_pos this, if_pos hlt, List.length_set, h.len]
+    · have : ¬ k < s.brd.length := by rw [h.len]; exact hlt
+      rw [if_neg this, if_neg hlt, List.length_append, h.len]; rfl
+  · -- cap
+    show (placeRaw s k r).bnumber ≤ MAXB
+    rw [hbn]; have := h.cap; split <;> omega
+  · -- clen
+    show (clearFC _ ((s.cache.set k r))).length = MAXB
+    simp [clearFC, List.length_mapIdx, h.clen]
+  · -- blen
+    show (s.bmcache.set k _).length = MAXB
+    rw [List.length_set, h.blen]
+  · -- copy
+    intro j x hx
+    show ∃ c, (clearFC (placeRaw s k r).bnumber (s.cache.set k r))[j]? = some c ∧ CacheOK c x
+    have hx' : (placeRaw s k r).brd[j]? = some x := hx
+    rw [getElem?_clearFC]
+    by_cases hjk : j = k
+    · subst hjk
+      rw [placeRaw_brd_self s j r hkl] at hx'
+      cases hx'
+      rw [List.getElem?_set_self (by rw [h.clen]; exact hkm)]
+      exact ⟨_, by simp [hkbn]; rfl, Or.inl rfl⟩
+    · rw [placeRaw_brd_ne s k j r hkl hjk] at hx'
+      obtain ⟨c, hc, hok⟩ := h.copy j x hx'
+      rw [List.getElem?_set_ne (Ne.symm hjk), hc]
+      refine ⟨c, ?_, hok⟩
+      have : ({ c with fc := zeros 8 } : Rec) = c := by
+        have := hok.fc
+        cases c; simp_all
+      by_cases hlt : j < (placeRaw s k r).bnumber <;> simp [hlt, this]
+  · -- beyond
+    intro j hj hjm
+    show (clearFC (placeRaw s k r).bnumber (s.cache.set k r))[j]? = some Rec.zero
+    have hj : (placeRaw s k r).bnumber ≤ j := hj
+    have hjk : j ≠ k := by omega
+    have hjb : s.bnumber ≤ j := by rw [hbn] at hj; split at hj <;> omega
+    rw [getElem?_clearFC, List.getElem?_set_ne (Ne.symm hjk), h.beyond j hjb hjm]
+    have : ¬ j < (placeRaw s k r).bnumber := by omega
+    simp [this]
+  · -- distinct
+    intro i j ri rj hi hj hocc hkey
+    have hi' : (placeRaw s k r).brd[i]? = some ri := hi
+    have hj' : (placeRaw s k r).brd[j]? = some rj := hj
+    by_cases hik : i = k
+    · by_cases hjk : j = k
+      · omega
+      · exfalso
+        rw [hik, placeRaw_brd_self s k r hkl] at hi'
+        cases hi'
+        rw [placeRaw_brd_ne s k j r hkl hjk] at hj'
+        exact hfresh j rj hj' hjk (occupied_of_key_eq hkey hocc) hkey.symm
+    · rw [placeRaw_brd_ne s k i r hkl hik] at hi'
+      by_cases hjk : j = k
+      · exfalso
+        rw [hjk, placeRaw_brd_self s k r hkl] at hj'
+        cases hj'
+        exact hfresh i ri hi' hik hocc hkey
+      · rw [placeRaw_brd_ne s k j r hkl hjk] at hj'
+        exact h.distinct i j ri rj hi' hj' hocc hkey
+
+
+/-! ### addBoardRecord -/
+
+theorem substIndex_succ (k : Nat) : substIndex (k + 1) = .ok k := by
+  simp [substIndex, gen_subst, pure, Except.pure]
+
+theorem hasVacant_false_iff (t : List Rec) :
+    hasVacant t = false ↔ ∀ (k : Nat) (r : Rec), t[k]? = some r → occupied r = true := by
+  simp only [hasVacant, List.any_eq_false]
+  constructor
+  · intro h k r hr
+    have := h r (List.mem_of_getElem? hr)
+    simpa using this
+  · intro h r hr
+    obtain ⟨k, hk, rfl⟩ := List.getElem_of_mem hr
+    have := h k _ (List.getElem?_eq_getElem hk)
+    simp [this]
+
+theorem occupied_false_iff (r : Rec) : occupied r = false ↔ nameKey r.name = [] := by
+  simp [occupied]
+
+theorem occupied_true_iff (r : Rec) : occupied r = true ↔ nameKey r.name ≠ [] := by
+  simp [occupied]
+
+theorem resetBoard_of_get (s : State) (k : Nat) (r : Rec) (hk : k < MAXB) (hg : s.brd[k]? = some r) :
+    resetBoard s (k + 1) =
+      ({ s with cache := s.cache.set k r, bmcache := s.bmcache.set k (parseBMList s.users r.bm) }, true) := by
+  have hc : (1 ≤ k + 1 ∧ k + 1 ≤ MAXB) := by omega
+  simp only [resetBoard, Nat.add_sub_cancel, hg, hc, and_self, decide_true, Bool.not_true, Bool.false_eq_true, if_false]
+
+theorem addBoardRecord_cases (srt : Sorter) {s : State} (h : Inv s) (r : Rec) :
+    (∃ (k : Nat) (r0 : Rec), s.brd[k]? = some r0 ∧ occupied r0 = false ∧
+        addBoardRecord srt s r = (sortBCache srt (placeRaw s k r), .ok (.ok (k + 1)))) ∨
+    (hasVacant s.brd = false ∧ s.bnumber < MAXB ∧
+        addBoardRecord srt s r = (sortBCache srt (placeRaw s s.bnumber r), .ok (.ok (s.bnumber + 1)))) ∨
+    (hasVacant s.brd = false ∧ MAXB ≤ s.bnumber ∧ addBoardRecord srt s r = (s, .ok .tooMany)) := by
+  obtain ⟨b, hb, hcase⟩ := getBid_brd h (zeros 13)
+  rw [nameKey_zeros] at hcase
+  rcases hcase with ⟨hb0, hnone⟩ | ⟨k, r0, hr0, hbk, hkey⟩
+  · right
+    have hv : hasVacant s.brd = false := by
+      rw [hasVacant_false_iff]
+      intro k r1 hr1
+      rw [occupied_true_iff]; exact hnone k r1 hr1
+    subst hb0
+    by_cases hcap : MAXB ≤ s.bnumber
+    · right
+      refine ⟨hv, hcap, ?_⟩
+      simp only [addBoardRecord, hb]
+      rw [if_neg (by omega), if_pos (by omega)]
+    · left
+      refine ⟨hv, by omega, ?_⟩
+      simp only [addBoardRecord, hb]
+      rw [if_neg (by omega), if_neg (by omega)]
+      have hget : (s.brd ++ [r])[s.bnumber]? = some r := by
+        rw [← h.len, List.getElem?_append_right (Nat.le_refl _)]; simp
+      rw [resetBoard_of_get _ s.bnumber r (by omega) hget]
+      have hnl : ¬ s.bnumber < s.brd.length := by rw [h.len]; omega
+      simp [placeRaw, hnl]
+  · left
+    have hk : k < s.bnumber := h.lt_of_get hr0
+    refine ⟨k, r0, hr0, (occupied_false_iff r0).mpr hkey, ?_⟩
+    subst hbk
+    have hcap := h.cap
+    simp only [addBoardRecord, hb]
+    rw [if_pos (by omega)]
+    simp only [substIndex_succ]
+    have hkl : k < s.brd.length := by rw [h.len]; exact hk
+    have hget : (s.brd.set k r)[k]? = some r := List.getElem?_set_self hkl
+    simp only [writeRec, if_pos hkl]
+    rw [resetBoard_of_get _ k r (by omega) hget]
+    simp [placeRaw, hkl, hk, h.tail]
+
+
+/-! ### bits -/
+
+theorem hasBit_clearBits_self (a m : Nat) (hm : (4294967295 ^^^ m) &&& m = 0) :
+    hasBit (clearBits a m) m = false := by
+  simp [hasBit, clearBits, Nat.and_assoc, hm]
+
+theorem hasBit_clearBits_other (a m m' : Nat) (hm : (4294967295 ^^^ m) &&& m' = m') :
+    hasBit (clearBits a m) m' = hasBit a m' := by
+  simp [hasBit, clearBits, Nat.and_assoc, hm]
+
+theorem hasBit_zero (m : Nat) : hasBit 0 m = false := by simp [hasBit]
+
+/-- a hidden board leaves `mNewbrd` without post-mask and with level 0. -/
+theorem hide_facts (q : Req) (hh : hasBit (buildAttr q) BRD_HIDE = true) :
+    hasBit (buildAttr q) BRD_POSTMASK = false ∧ buildLevel q = 0 := by
+  unfold buildAttr buildLevel at *
+  by_cases hc : restricted q = true
+  · rw [if_pos hc, if_pos hc]
+    exact ⟨hasBit_clearBits_self _ _ (by decide), rfl⟩
+  · rw [if_neg hc] at hh
+    simp only [restricted, Bool.or_eq_true, not_or] at hc
+    exact absurd hh hc.2
+
+/-! ### LoadBoardSummary's write -/
+
+theorem nameKeyAt_set_same {cache : List Rec} {k : Nat} {c c' : Rec} (hc : cache[k]? = some c)
+    (hn : c'.name = c.name) : nameKeyAt (cache.set k c') = nameKeyAt cache := by
+  funext j
+  simp only [nameKeyAt, List.getD, List.getElem?_set]
+  by_cases hjk : k = j
+  · subst hjk
+    have hlt : k < cache.length := by
+      rcases Nat.lt_or_ge k cache.length with h | h
+      · exact h
+      · rw [List.getElem?_eq_none h] at hc; cases hc
+    have hck : cache[k] = c := by
+      have := List.getElem?_eq_getElem hlt
+      rw [hc] at this; cases this; rfl
+    simp [hlt, hn, hck]
+  · simp [hjk]
+
+theorem classKeyAt_set_same {cache : List Rec} {k : Nat} {c c' : Rec} (hc : cache[k]? = some c)
+    (hn : c'.name = c.name) (ht : c'.title = c.title) : classKeyAt (cache.set k c') = classKeyAt cache := by
+  funext j
+  simp only [classKeyAt, List.getD, List.getElem?_set]
+  by_cases hjk : k = j
+  · subst hjk
+    have hlt : k < cache.length := by
+      rcases Nat.lt_or_ge k cache.length with h | h
+      · exact h
+      · rw [List.getElem?_eq_none h] at hc; cases hc
+    have hck : cache[k] = c := by
+      have := List.getElem?_eq_getElem hlt
+      rw [hc] at this; cases this; rfl
+    simp [hlt, hn, ht, hck]
+  · simp [hjk]
+
+theorem inv_setAttr {s : State} (h : Inv s) {k : Nat} {r : Rec} (hr : s.brd[k]? = some r)
+    (hc : s.cache[k]? = some (shmOf r)) (hh : hasBit r.attr BRD_HIDE = true) :
+    Inv { s with cache := s.cache.set k { shmOf r with attr := r.attr ||| BRD_POSTMASK } } := by
+  have hk : k < s.bnumber := h.lt_of_get hr
+  have hn := nameKeyAt_set_same (c' := { shmOf r with attr := r.attr ||| BRD_POSTMASK }) hc rfl
+  have hcl := classKeyAt_set_same (c' := { shmOf r with attr := r.attr ||| BRD_POSTMASK }) hc rfl rfl
+  refine ⟨h.tail, h.len, h.cap, ?_, h.blen, ?_, ?_, ?_, ?_, h.distinct⟩
+  · simp [h.clen]
+  · intro j x hx
+    by_cases hjk : j = k
+    · subst hjk
+      have : x = r := by
+        have hx' : s.brd[j]? = some x := hx
+        rw [hr] at hx'; cases hx'; rfl
+      subst this
+      refine ⟨_, List.getElem?_set_self (by rw [h.clen]; have := h.cap; omega), Or.inr ⟨hh, rfl⟩⟩
+    · obtain ⟨c, hcj, hok⟩ := h.copy j x hx
+      exact ⟨c, by simp only; rw [List.getElem?_set_ne (Ne.symm hjk)]; exact hcj, hok⟩
+  · intro j hj hjm
+    simp only
+    rw [List.getElem?_set_ne (by have : s.bnumber ≤ j := hj; omega)]
+    exact h.beyond j hj hjm
+  · simp only [hn]; exact h.sortN
+  · simp only [hcl]; exact h.sortC
+
+theorem summaryEffect_eq {s : State} {q : Req} {k : Nat} (hc : s.cache[k]? = some (shmOf (normalise s.users q)))
+    (hb : s.bmcache[k]? = some (parseBMList s.users (normalise s.users q).bm)) :
+    summaryEffect s q (k + 1) =
+      if postMaskWritten s.users q then
+        { s with cache := s.cache.set k { shmOf (normalise s.users q) with
+                    attr := (normalise s.users q).attr ||| BRD_POSTMASK } }
+      else s := by
+  have hmod : isBMCache s q (k + 1) = callerIsMod s.users q (sanitizeBMs s.users q.bms) := by
+    simp only [isBMCache, callerIsMod, Nat.add_sub_cancel, List.getD, hb, Option.getD_some]
+    rfl
+  simp only [summaryEffect, Nat.add_sub_cancel, List.getD, hc, Option.getD_some, statIsBoard, hmod, postMaskWritten]
+  have ha : (shmOf (normalise s.users q)).attr = buildAttr q := rfl
+  have hl : (shmOf (normalise s.users q)).level = buildLevel q := rfl
+  have ha' : (normalise s.users q).attr = buildAttr q := rfl
+  rw [ha, hl, ha']
+  by_cases hh : hasBit (buildAttr q) BRD_HIDE = true
+  · obtain ⟨hpm, hlv⟩ := hide_facts q hh
+    simp [hh, hpm, hlv, hasBit_zero]
+  · simp [hh]
+
+
+/-! ### an accepted request -/
+
+theorem inv_dirs {s : State} (h : Inv s) (d : List Bytes) : Inv { s with dirs := d } :=
+  ⟨h.tail, h.len, h.cap, h.clen, h.blen, h.copy, h.beyond, h.sortN, h.sortC, h.distinct⟩
+
+theorem shm_fix {c r : Rec} (h : CacheOK c r) : ({ c with fc := zeros 8 } : Rec) = c := by
+  have := h.fc
+  cases c; simp_all
+
+/-- the shared copy the new board gets. -/
+def newCopy (users : List Bytes) (q : Req) : Rec :=
+  if postMaskWritten users q then
+    { shmOf (normalise users q) with attr := (normalise users q).attr ||| BRD_POSTMASK }
+  else shmOf (normalise users q)
+
+theorem accept_core {srt : Sorter} (hs : SortSpec srt) {s : State} (h : Inv s) (q : Req) {k : Nat}
+    (hk : k ≤ s.bnumber) (hkm : k < MAXB)
+    (hfresh : ∀ (j : Nat) (rj : Rec), s.brd[j]? = some rj → j ≠ k → occupied rj = true →
+      nameKey rj.name ≠ nameKey (normalise s.users q).name) :
+    let F := summaryEffect (sortBCache srt (placeRaw s k (normalise s.users q))) q (k + 1)
+    Inv F ∧ F.brd = (placeRaw s k (normalise s.users q)).brd ∧ F.dirs = s.dirs ∧ F.users = s.users ∧
+    F.letters = s.letters ∧ F.bnumber = (if k < s.bnumber then s.bnumber else s.bnumber + 1) ∧
+    F.cache[k]? = some (newCopy s.users q) ∧
+    F.bmcache[k]? = some (parseBMList s.users (normalise s.users q).bm) ∧
+    (∀ j, j ≠ k → F.cache[j]? = s.cache[j]?) ∧ (∀ j, j ≠ k → F.bmcache[j]? = s.bmcache[j]?) := by
+  intro F
+  have hP : Inv (sortBCache srt (placeRaw s k (normalise s.users q))) := inv_place hs h hk hkm hfresh
+  have hkl : k ≤ s.brd.length := by rw [h.len]; exact hk
+  have hbn : (placeRaw s k (normalise s.users q)).bnumber = if k < s.bnumber then s.bnumber else s.bnumber + 1 := rfl
+  have hkbn : k < (placeRaw s k (normalise s.users q)).bnumber := by rw [hbn]; split <;> omega
+  have hPb : (sortBCache srt (placeRaw s k (normalise s.users q))).brd[k]? = some (normalise s.users q) :=
+    placeRaw_brd_self s k _ hkl
+  have hPc : (sortBCache srt (placeRaw s k (normalise s.users q))).cache[k]? = some (shmOf (normalise s.users q)) := by
+    show (clearFC (placeRaw s k (normalise s.users q)).bnumber (s.cache.set k (normalise s.users q)))[k]? = _
+    rw [getElem?_clearFC, List.getElem?_set_self (by rw [h.clen]; exact hkm)]
+    simp [hkbn]; rfl
+  have hPm : (sortBCache srt (placeRaw s k (normalise s.users q))).bmcache[k]? =
+      some (parseBMList s.users (normalise s.users q).bm) := by
+    show (s.bmcache.set k _)[k]? = _
+    rw [List.getElem?_set_self (by rw [h.blen]; exact hkm)]
+  have hPcj : ∀ j, j ≠ k → (sortBCache srt (placeRaw s k (normalise s.users q))).cache[j]? = s.cache[j]? := by
+    intro j hjk
+    show (clearFC (placeRaw s k (normalise s.users q)).bnumber (s.cache.set k (normalise s.users q)))[j]? = _
+    rw [getElem?_clearFC, List.getElem?_set_ne (Ne.symm hjk)]
+    by_cases hjn : j < (placeRaw s k (normalise s.users q)).bnumber
+    · have hjb : j < s.bnumber := by rw [hbn] at hjn; split at hjn <;> omega
+      obtain ⟨x, hx⟩ := h.get_of_lt hjb
+      obtain ⟨c, hc, hok⟩ := h.copy j x hx
+      rw [hc]; simp [hjn, shm_fix hok]
+    · cases s.cache[j]? <;> simp [hjn]
+  have hF : F = if postMaskWritten s.users q then
+        { sortBCache srt (placeRaw s k (normalise s.users q)) with
+          cache := (sortBCache srt (placeRaw s k (normalise s.users q))).cache.set k
+            { shmOf (normalise s.users q) with attr := (normalise s.users q).attr ||| BRD_POSTMASK } }
+      else sortBCache srt (placeRaw s k (normalise s.users q)) :=
+    summaryEffect_eq (s := sortBCache srt (placeRaw s k (normalise s.users q))) hPc hPm
+  by_cases hpm : postMaskWritten s.users q = true
+  · rw [if_pos hpm] at hF
+    have hh : hasBit (normalise s.users q).attr BRD_HIDE = true := by
+      simp only [postMaskWritten, Bool.and_eq_true] at hpm
+      exact hpm.1.1
+    rw [hF]
+    refine ⟨inv_setAttr hP hPb hPc hh, rfl, rfl, rfl, rfl, rfl, ?_, hPm, ?_, ?_⟩
+    · simp only [newCopy, if_pos hpm]
+      exact List.getElem?_set_self (by
+        show k < (clearFC _ (s.cache.set k _)).length
+        simp [clearFC, h.clen]; exact hkm)
+    · intro j hjk
+      simp only
+      rw [List.getElem?_set_ne (Ne.symm hjk)]; exact hPcj j hjk
+    · intro j hjk
+      show (s.bmcache.set k _)[j]? = _
+      rw [List.getElem?_set_ne (Ne.symm hjk)]
+  · rw [if_neg hpm] at hF
+    rw [hF]
+    refine ⟨hP, rfl, rfl, rfl, rfl, rfl, ?_, hPm, hPcj, ?_⟩
+    · simp only [newCopy, if_neg hpm]; exact hPc
+    · intro j hjk
+      show (s.bmcache.set k _)[j]? = _
+      rw [List.getElem?_set_ne (Ne.symm hjk)]
+
+
+/-! ### one request -/
+
+theorem cache_bm_eq' {s : State} (h : Inv s) (i : Nat) :
+    (s.cache.getD i Rec.zero).bm = (s.brd.getD i Rec.zero).bm := by
+  by_cases hi : i < s.bnumber
+  · obtain ⟨x, hx⟩ := h.get_of_lt hi
+    obtain ⟨c, hc, hok⟩ := h.copy i x hx
+    simp [List.getD, hx, hc, hok.bm]
+  · have hb : s.brd[i]? = none := List.getElem?_eq_none (by rw [h.len]; omega)
+    by_cases him : i < MAXB
+    · simp [List.getD, hb, h.beyond i (by omega) him]
+    · have hc : s.cache[i]? = none := List.getElem?_eq_none (by rw [h.clen]; omega)
+      simp [List.getD, hb, hc]
+
+theorem groupOpOf_cache {s : State} (h : Inv s) (q : Req) : groupOpOf s.cache q = groupOpOf s.brd q := by
+  simp only [groupOpOf, cache_bm_eq' h]
+
+theorem validName_key_ne {n : Bytes} (h : validNameSpec n = true) : nameKey n ≠ [] := by
+  unfold validNameSpec at h
+  unfold nameKey
+  cases hc : cstr n with
+  | nil => rw [hc] at h; cases h
+  | cons c rest => simp
+
+theorem erase_append_self (l : List Bytes) (x : Bytes) (h : l.contains x = false) : (l ++ [x]).erase x = l := by
+  induction l with
+  | nil => simp
+  | cons y ys ih =>
+      have hne : y ≠ x := by
+        intro e; subst e; simp at h
+      have hys : ys.contains x = false := by
+        simp only [List.contains_eq_mem, List.mem_cons, decide_eq_false_iff_not, not_or] at h ⊢
+        exact h.2
+      rw [List.cons_append, List.erase_cons_tail (by simpa using hne), ih hys]
+
+theorem nameTaken_true {t : List Rec} {n : Bytes} {k : Nat} {r : Rec} (hr : t[k]? = some r)
+    (hk : nameKey r.name = nameKey n) (hn : nameKey n ≠ []) : nameTaken t n = true := by
+  simp only [nameTaken, List.any_eq_true]
+  refine ⟨r, List.mem_of_getElem? hr, ?_⟩
+  simp [occupied, hk, hn]
+
+theorem nameTaken_false {t : List Rec} {n : Bytes}
+    (h : ∀ (k : Nat) (r : Rec), t[k]? = some r → nameKey r.name ≠ nameKey n) : nameTaken t n = false := by
+  simp only [nameTaken, List.any_eq_false]
+  intro r hr
+  obtain ⟨k, hk, rfl⟩ := List.getElem_of_mem hr
+  have := h k _ (List.getElem?_eq_getElem hk)
+  simp [this]
+
+theorem hasVacant_true {t : List Rec} {k : Nat} {r : Rec} (hr : t[k]? = some r) (ho : occupied r = false) :
+    hasVacant t = true := by
+  simp only [hasVacant, List.any_eq_true]
+  exact ⟨r, List.mem_of_getElem? hr, by simp [ho]⟩
+
+/-- what an accepted request leaves behind in slot `k`. -/
+structure Accepted (s s' : State) (q : Req) (k : Nat) : Prop where
+  brd : s'.brd[k]? = some (normalise s.users q)
+  cache : s'.cache[k]? = some (newCopy s.users q)
+  bmc : s'.bmcache[k]? = some (parseBMList s.users (normalise s.users q).bm)
+  frameBrd : ∀ j, j ≠ k → s'.brd[j]? = s.brd[j]?
+  frameCache : ∀ j, j ≠ k → s'.cache[j]? = s.cache[j]?
+  frameBmc : ∀ j, j ≠ k → s'.bmcache[j]? = s.bmcache[j]?
+  count : s'.bnumber = if hasVacant s.brd then s.bnumber else s.bnumber + 1
+  slot : k ≤ s.bnumber ∧ k < MAXB
+
+theorem refusal_pack {s : State} (h : Inv s) (q : Req) (r : Res) (hr : ∀ b, r ≠ .ok b)
+    (hspec : specDecide s.letters s.dirs s.brd q = some r) (P : State × M Res) (hP : P = (s, .ok r)) :
+    ∃ res, P.2 = .ok res ∧ Inv P.1 ∧ SpecStep s.users s.letters s.brd s.dirs q res P.1.brd P.1.dirs ∧
+      P.1.users = s.users ∧ P.1.letters = s.letters ∧ ((∀ b, res ≠ .ok b) → P.1 = s) ∧
+      (∀ b, res = .ok b → 1 ≤ b ∧ Accepted s P.1 q (b - 1)) := by
+  subst hP
+  refine ⟨r, rfl, h, ?_, rfl, rfl, fun _ => rfl, fun b hb => absurd hb (hr b)⟩
+  simp [SpecStep, hspec]
+
+theorem newBoard_step {srt : Sorter} (hs : SortSpec srt) {s : State} (h : Inv s) (q : Req) :
+    ∃ res, (newBoard srt s q).2 = .ok res ∧ Inv (newBoard srt s q).1 ∧
+      SpecStep s.users s.letters s.brd s.dirs q res (newBoard srt s q).1.brd (newBoard srt s q).1.dirs ∧
+      (newBoard srt s q).1.users = s.users ∧ (newBoard srt s q).1.letters = s.letters ∧
+      ((∀ b, res ≠ .ok b) → (newBoard srt s q).1 = s) ∧
+      (∀ b, res = .ok b → 1 ≤ b ∧ Accepted s (newBoard srt s q).1 q (b - 1)) := by
+  by_cases hvb0 : validBid q.cls = false
+  · exact refusal_pack h q .invalidBid (by intro b; simp) (by simp [specDecide, hvb0]) _
+      (by simp [newBoard, hvb0])
+  have hvb : validBid q.cls = true := by simpa using hvb0
+  have hpe : groupOpOf s.cache q = permitted s.brd q := groupOpOf_cache h q
+  by_cases hp0 : permitted s.brd q = false
+  · have hb' : hasBit q.ulevel PERM_BOARD = false := by
+      cases hx : hasBit q.ulevel PERM_BOARD with
+      | false => rfl
+      | true => simp [permitted, groupOpOf, hx] at hp0
+    exact refusal_pack h q .notPermitted (by intro b; simp) (by simp [specDecide, hvb, hp0]) _
+      (by simp [newBoard, hvb, hpe, hp0, hb'])
+  have hp : permitted s.brd q = true := by simpa using hp0
+  have hnb : newBoard srt s q = mNewbrd srt s q := by simp [newBoard, hvb, hpe, hp]
+  rw [hnb]
+  by_cases hvn0 : validNameSpec q.name = false
+  · exact refusal_pack h q .invalidName (by intro b; simp) (by simp [specDecide, hvb, hp, hvn0]) _
+      (by simp [mNewbrd, isValidName_eq, hvn0])
+  have hvn : validNameSpec q.name = true := by simpa using hvn0
+  have hkne := validName_key_ne hvn
+  obtain ⟨b, hb, hcase⟩ := getBid_brd h q.name
+  by_cases hbz : b ≠ 0
+  · -- the name exists
+    obtain ⟨k, r0, hr0, hbk, hkey⟩ : ∃ (k : Nat) (r : Rec), s.brd[k]? = some r ∧ b = k + 1 ∧ nameKey r.name = nameKey q.name := by
+      rcases hcase with ⟨hb0, _⟩ | hx
+      · exact absurd hb0 hbz
+      · exact hx
+    subst hbk
+    exact refusal_pack h q .nameExists (by intro b; simp)
+      (by simp [specDecide, hvb, hp, hvn, nameTaken_true hr0 hkey hkne]) _
+      (by simp [mNewbrd, isValidName_eq, hvn, hb])
+  have hb0 : b = 0 := by omega
+  have hnone : ∀ (k : Nat) (r : Rec), s.brd[k]? = some r → nameKey r.name ≠ nameKey q.name := by
+    rcases hcase with ⟨_, hn⟩ | ⟨k, r0, _, hbk, _⟩
+    · exact hn
+    · omega
+  subst hb0
+  have hnt : nameTaken s.brd q.name = false := nameTaken_false hnone
+  by_cases hl0 : hasLetter s.letters q.name = false
+  · exact refusal_pack h q .mkdirNoent (by intro b; simp) (by simp [specDecide, hvb, hp, hvn, hnt, hl0]) _
+      (by simp [mNewbrd, isValidName_eq, hvn, hb, hl0])
+  have hl : hasLetter s.letters q.name = true := by simpa using hl0
+  by_cases hd : hasDir s.dirs q.name = true
+  · exact refusal_pack h q .mkdirExist (by intro b; simp) (by simp [specDecide, hvb, hp, hvn, hnt, hl, hd]) _
+      (by simp [mNewbrd, isValidName_eq, hvn, hb, hl, hd])
+  have hd' : hasDir s.dirs q.name = false := by simpa using hd
+  -- mkdir done; the record is placed
+  have h1 : Inv { s with dirs := s.dirs ++ [cstr q.name] } := inv_dirs h _
+  have hfresh : ∀ (k : Nat), ∀ (j : Nat) (rj : Rec), s.brd[j]? = some rj → j ≠ k → occupied rj = true →
+      nameKey rj.name ≠ nameKey (normalise s.users q).name := fun _ j rj hj _ _ => hnone j rj hj
+  rcases addBoardRecord_cases srt h1 (buildRec q (sanitizeBMs s.users q.bms)) with
+    ⟨k, r0, hr0, ho, hadd⟩ | ⟨hv, hlt, hadd⟩ | ⟨hv, hge, hadd⟩
+  · -- a vacated slot
+    have hm : mNewbrd srt s q = (summaryEffect (sortBCache srt (placeRaw { s with dirs := s.dirs ++ [cstr q.name] } k
+        (normalise s.users q))) q (k + 1), .ok (.ok (k + 1))) := by
+      simp [mNewbrd, isValidName_eq, hvn, hb, hl, hd', hadd, normalise]
+    rw [hm]
+    have hk : k < s.bnumber := h.lt_of_get hr0
+    have hkm : k < MAXB := by have := h.cap; omega
+    obtain ⟨hI, hbrd, hdirs, husers, hletters, hbn, hc, hm, hcj, hmj⟩ :=
+      accept_core hs h1 q (k := k) (by show k ≤ s.bnumber; omega) hkm (hfresh k)
+    have hkl : k < s.brd.length := by rw [h.len]; exact hk
+    refine ⟨.ok (k + 1), rfl, hI, ?_, husers, hletters, fun hne => absurd rfl (hne (k + 1)), ?_⟩
+    · simp only [SpecStep, specDecide, hvb, hp, hvn, hnt, hl, hd', hasVacant_true hr0 ho]
+      simp only [Bool.not_true, Bool.false_eq_true, if_false, Bool.false_and]
+      refine ⟨k, rfl, hdirs, Or.inl ⟨hkl, ⟨r0, hr0, ho⟩, ?_⟩⟩
+      rw [hbrd]; simp [placeRaw, hkl]
+    · intro b hb
+      cases hb
+      refine ⟨by omega, ?_⟩
+      rw [Nat.add_sub_cancel]
+      refine ⟨?_, hc, hm, ?_, hcj, hmj, ?_, ⟨by omega, hkm⟩⟩
+      · rw [hbrd]; exact placeRaw_brd_self _ k _ (by show k ≤ s.brd.length; omega)
+      · intro j hj; rw [hbrd]; exact placeRaw_brd_ne _ k j _ (by show k ≤ s.brd.length; omega) hj
+      · rw [hbn, hasVacant_true hr0 ho]; simp [hk]
+  · -- appended
+    have hm : mNewbrd srt s q = (summaryEffect (sortBCache srt (placeRaw { s with dirs := s.dirs ++ [cstr q.name] }
+        s.bnumber (normalise s.users q))) q (s.bnumber + 1), .ok (.ok (s.bnumber + 1))) := by
+      simp [mNewbrd, isValidName_eq, hvn, hb, hl, hd', hadd, normalise]
+    rw [hm]
+    have hlt' : s.bnumber < MAXB := hlt
+    obtain ⟨hI, hbrd, hdirs, husers, hletters, hbn, hc, hm, hcj, hmj⟩ :=
+      accept_core hs h1 q (k := s.bnumber) (Nat.le_refl _) hlt' (hfresh s.bnumber)
+    have hv' : hasVacant s.brd = false := hv
+    have hnl : ¬ s.bnumber < s.brd.length := by rw [h.len]; omega
+    refine ⟨.ok (s.bnumber + 1), rfl, hI, ?_, husers, hletters, fun hne => absurd rfl (hne (s.bnumber + 1)), ?_⟩
+    · simp only [SpecStep, specDecide, hvb, hp, hvn, hnt, hl, hd', hv']
+      have : ¬ (s.brd.length ≥ MAXB) := by rw [h.len]; omega
+      simp only [Bool.not_true, Bool.false_eq_true, if_false, Bool.not_false, Bool.true_and, decide_eq_true_eq, this]
+      refine ⟨s.bnumber, rfl, hdirs, Or.inr ⟨by trivial, h.len.symm, ?_⟩⟩
+      rw [hbrd]; simp [placeRaw, hnl]
+    · intro b hb
+      cases hb
+      refine ⟨by omega, ?_⟩
+      rw [Nat.add_sub_cancel]
+      refine ⟨?_, hc, hm, ?_, hcj, hmj, ?_, ⟨Nat.le_refl _, hlt'⟩⟩
+      · rw [hbrd]; exact placeRaw_brd_self _ s.bnumber _ (by show s.bnumber ≤ s.brd.length; rw [h.len]; omega)
+      · intro j hj; rw [hbrd]
+        exact placeRaw_brd_ne _ s.bnumber j _ (by show s.bnumber ≤ s.brd.length; rw [h.len]; omega) hj
+      · rw [hbn, hv']; simp
+  · -- no capacity: the directory is removed again
+    have hv' : hasVacant s.brd = false := hv
+    have hge' : MAXB ≤ s.bnumber := hge
+    have hlen : s.brd.length ≥ MAXB := by rw [h.len]; exact hge'
+    refine refusal_pack h q .tooMany (by intro b; simp)
+      (by simp [specDecide, hvb, hp, hvn, hnt, hl, hd', hv', hlen]) _ ?_
+    simp [mNewbrd, isValidName_eq, hvn, hb, hl, hd', hadd, gen_rmdir]
+    rw [show (s.dirs ++ [cstr q.name]).erase (cstr q.name) = s.dirs from erase_append_self _ _ hd']
+
 end PttVerif.C12
